@@ -346,6 +346,12 @@ def gen_harness(c, table):
         for p in split_top(params):
             L.append('  %s;' % p)
     for i, (_, e, tags, line, _) in enumerate(req, 1):
+        m = re.match(r'^INPUT_STATE\s*\((.*)\)$', e.strip(), re.S)
+        if m:
+            # ghost / global state the function reads: nondeterministic on entry (statics are zero in plain cbmc)
+            for t in split_top(m.group(1)):
+                L.append('  { __typeof__(%s) __nd; %s = __nd; }' % (t, t))
+            continue
         for st in assume_stmts(sub_fresh(e, 'ASSUME')):
             L.append('  ' + st)
     ol = olds([e for _, e, _, _, _ in ens])
